@@ -7,3 +7,26 @@ register_simp_attr tvsimp
 
 /-- lemmas `(f w ..).pending = w.pending` (see `Lemmas/PView.lean`) -/
 register_simp_attr pvsimp
+
+namespace USim.Machine
+open Lean Elab Tactic
+
+/-- one backward step for a goal `R x0 (f w ..).view` (or `(f w ..).1.view`): apply the lemma `f<suffix>` of the function at
+the head of the world term.  Dispatching on the name is much faster than trying the lemmas of all functions one after the
+other; the tactic only *finds* the lemma, the kernel checks the resulting proof. -/
+def viewApply (suffix : String) : TacticM Unit := do
+  let g ← getMainGoal
+  let t := (← instantiateMVars (← g.getType)).cleanupAnnotations
+  let some x := t.getAppArgs.back? | throwError "viewApply: not an application"
+  let some x := x.cleanupAnnotations.getAppArgs.back? | throwError "viewApply: no world term"
+  let x := x.cleanupAnnotations
+  let x := if x.isAppOf ``Prod.fst then (x.getAppArgs.back?.getD x).cleanupAnnotations else x
+  match x.getAppFn with
+  | .const n _ =>
+    let lem := n.appendAfter suffix
+    if (← getEnv).contains lem then
+      evalTactic (← `(tactic| apply $(mkIdent lem)))
+    else throwError "viewApply: no lemma {lem}"
+  | _ => throwError "viewApply: head is not a constant"
+
+end USim.Machine
